@@ -5,6 +5,7 @@ package gomatrixserverlib
 import (
 	"context"
 	"fmt"
+	"strconv"
 	"strings"
 	"time"
 	"unicode/utf16"
@@ -209,7 +210,16 @@ func c04Check(ctx *vfCtx, c c04Case) {
 	// tampered copy - the outcome for the copy must not depend on anything remembered from the original
 	if c.GenuineFirst && len(c.Tampers) > 0 {
 		ctx.Class("history/genuine-event-parsed-first")
-		if vfCatch(ctx, "C04/genuine-first", func() { _, _ = impl.NewEventFromUntrustedJSON([]byte(jplain(orig))) }) {
+		if vfCatch(ctx, "C04/genuine-first", func() {
+			if ge, gerr := impl.NewEventFromUntrustedJSON([]byte(jplain(orig))); gerr == nil && ge != nil {
+				// ... and used: its typed accessors have been called
+				if ge.Type() == "m.room.power_levels" {
+					_, _ = ge.PowerLevels()
+				}
+				_, _ = ge.Membership()
+				_ = ge.EventID()
+			}
+		}) {
 			return
 		}
 	}
@@ -297,6 +307,53 @@ func c04Check(ctx *vfCtx, c c04Case) {
 	if gerr != nil {
 		ctx.Fail("C04/json-malformed", "JSON() malformed: %v", gerr)
 		return
+	}
+	// the typed accessor of power-levels events speaks for THIS object's content (whatever copy of the
+	// event, redacted or not, was parsed before it)
+	if view.Type == "m.room.power_levels" {
+		if gc, ok := got.get("content"); ok && gc.K == 'o' {
+			var pl *PowerLevelContent
+			var plErr error
+			if vfCatch(ctx, "C04/power-levels-accessor", func() { pl, plErr = ev.PowerLevels() }) {
+				return
+			}
+			if plErr == nil && pl != nil {
+				ctx.Class("power-levels-accessor-compared")
+				for name, have := range map[string]int64{"ban": pl.Ban, "kick": pl.Kick, "redact": pl.Redact, "invite": pl.Invite,
+					"events_default": pl.EventsDefault, "state_default": pl.StateDefault, "users_default": pl.UsersDefault} {
+					if v, ok := gc.get(name); ok && v.K == '#' {
+						if want, perr := strconv.ParseInt(v.S, 10, 64); perr == nil && want != have {
+							ctx.Fail("C04/accessor-differs-from-own-content/power-levels", "PowerLevels().%s = %d, the event's own content says %d; JSON=%q", name, have, want, ev.JSON())
+							return
+						}
+					} else if !ok {
+						// left out (or redacted away): the documented default
+						def := map[string]int64{"ban": 50, "kick": 50, "redact": 50, "state_default": 50}[name]
+						if have != def {
+							ctx.Fail("C04/accessor-differs-from-own-content/power-levels", "the event's own content has no %s, PowerLevels().%s = %d (default %d); JSON=%q", name, name, have, def, ev.JSON())
+							return
+						}
+					}
+				}
+				if nv, ok := gc.get("notifications"); ok && nv.K == 'o' {
+					for _, m := range nv.O {
+						if m.Val.K == '#' {
+							if want, perr := strconv.ParseInt(m.Val.S, 10, 64); perr == nil && pl.Notifications[m.Key] != want {
+								ctx.Fail("C04/accessor-differs-from-own-content/power-levels", "PowerLevels().Notifications[%q] = %d, the event's own content says %d", m.Key, pl.Notifications[m.Key], want)
+								return
+							}
+						}
+					}
+				} else if !ok {
+					for k, v := range pl.Notifications {
+						if k != "room" || v != 50 {
+							ctx.Fail("C04/accessor-differs-from-own-content/power-levels", "the content has no notifications section, PowerLevels().Notifications = %v (default: room 50)", pl.Notifications)
+							return
+						}
+					}
+				}
+			}
+		}
 	}
 	kc := evKnownClass(c.Version, received)
 	if match {
